@@ -65,6 +65,22 @@ def record(cases):
     return out
 
 
+HUGE = [dict(cap=2 ** 23, stored=2 ** 20, keys=8), dict(cap=2 ** 22, stored=2 ** 18, keys=24)]
+
+
+def huge_ring(ctx: Ctx, rep: Report):
+    """sampling clause at the other end of the scale: a ring of millions of slots, partly written, batch = all stored rows"""
+    from .. import drive_replay as dr
+    cases = [dict(c, seed=ctx.rng.randrange(2 ** 31)) for c in (HUGE if ctx.thorough else HUGE[:1])]
+    items = [dr.sparse_ring_probe(c["cap"], c["stored"], c["keys"] * (3 if ctx.thorough else 1), c["seed"]) for c in cases]
+    v = tracecheck.validate(ctx, "trace/Trace_Atoms.tla", items, "huge_ring")
+    rep.traces += len(items)
+    rep.evaluations += sum(i["meta"]["keys"] for i in items)
+    rep.parts["sampling_from_huge_partly_written_rings"] = {"cases": [i["meta"] for i in items], "accepted": len(v.accepted), "rejected": len(v.rejected)}
+    for i, (l, clauses) in sorted(v.rejected.items()):
+        rep.violations.append(Violation("C06:huge_ring:" + "+".join(clauses), f"ReplayBuffer.sample {items[i]['meta']}: {clauses}", "huge_ring", cases[i]))
+
+
 def run(ctx: Ctx) -> Report:
     rep = Report()
     for cfgname in ("mc/MC_ReplayRing.cfg", "mc/MC_ReplayRing_N2.cfg") + (("mc/MC_ReplayRing_big.cfg",) if ctx.thorough else ()):
@@ -103,6 +119,7 @@ def run(ctx: Ctx) -> Report:
         raise Machinery(f"C06 binding self-test failed: {vb.accepted}")
     rep.parts["binding_self_test"] = {"corrupted_traces_rejected": 2}
     rep.merge(s2c_replay(ctx))
+    huge_ring(ctx, rep)
     t0 = traces[good[0]]
     rep.samples.append({"kind": "ReplayBuffer trace", "cap": t0["cap"], "rings": t0["N"], "events": t0["events"][:3]})
     rep.assumptions += ["rows carry a unique tag in every leaf of every field, so a field written from another insertion is visible"]
@@ -160,6 +177,15 @@ def s2c_replay(ctx: Ctx) -> Report:
 def replay(ctx: Ctx, driver: str, case: dict) -> Report:
     if driver == "s2c":
         return s2c_replay(ctx)
+    if driver == "huge_ring":
+        from .. import drive_replay as dr
+        rep = Report()
+        it = dr.sparse_ring_probe(case["cap"], case["stored"], case["keys"], case["seed"])
+        v = tracecheck.validate(ctx, "trace/Trace_Atoms.tla", [it], "replay")
+        rep.traces = 1
+        for i, (l, clauses) in v.rejected.items():
+            rep.violations.append(Violation("C06:huge_ring:" + "+".join(clauses), str(it["meta"]), driver, case))
+        return rep
     rep = Report()
     traces = record([case])
     v = tracecheck.validate(ctx, SPEC, traces, "replay")
